@@ -52,6 +52,7 @@ def gen_program(rnd, pid, cls='A', nrt_only=False, feats=('send', 'tempo', 'spaw
     order = list(roots)
     tempo_owner = {}
     cond_home = {}
+    tb_used = set()
     while order:
         r = order.pop(0)
         c = home[r]
@@ -82,12 +83,16 @@ def gen_program(rnd, pid, cls='A', nrt_only=False, feats=('send', 'tempo', 'spaw
                     tc = rnd.choice(list(clocks))
                     if kind < 0.15 and nrt_only:
                         body.append(I('ET', c=tc, **dict(zip('ab', rnd.choice(TEMPI)))))
-                    elif kind < 0.3 and tc == c:
+                    elif kind < 0.3 and tc == c and tc not in tb_used:
+                        # one backward jump per clock: setting beats forward makes overdue tasks run at once with
+                        # logical times in the past (documented), which is outside these properties
+                        tb_used.add(tc)
                         body.append(I('TB', c=tc, a=rnd.choice([0, 0, -TU, -4 * TU, -TU // 2])))
                     else:
                         body.append(I('T', c=tc, **dict(zip('ab', rnd.choice(TEMPI)))))
                 elif c in clocks and tempo_owner.setdefault(c, r) == r:
-                    if kind < 0.2:
+                    if kind < 0.2 and c not in tb_used:
+                        tb_used.add(c)
                         body.append(I('TB', c=c, a=rnd.choice([0, 0, -TU, -4 * TU, -TU // 2])))
                     else:
                         body.append(I('T', c=c, **dict(zip('ab', rnd.choice(TEMPI)))))
